@@ -350,7 +350,7 @@ impl C18 {
         if batch.iter().any(|a| !a.valid()) {
             out.count(if res.is_ok() { "forged_in_batch:tolerated" } else { "forged_in_batch:rejected" });
         }
-        json!({"class": class, "ok": res.is_ok(), "notified": notified, "book": Self::book_json(&after), "_err": res.err().map(|e| format!("{e:#}"))})
+        json!({"class": class, "ok": res.is_ok(), "notified": notified, "book": Self::book_json(&after), "_err": res.err().map(|e| format!("{e:#}").chars().take(48).collect::<String>())})
     }
 
     fn exec_announce(&mut self, op: &Value, out: &mut Out) -> Value {
